@@ -223,6 +223,29 @@ def run_case(case, rec):
                           "of the batch is NaN; value with that point finite: %r)" % (B, float(terms_s["dyn_loss"]), got))
         if not np.isnan(float(tot_s)):
             rec.violation("total-not-sum/%s/nan-term" % sigk, "a NaN dynamic term but a finite total %r" % float(tot_s))
+    # ---------------------------------------------------------------- "with the given parameters": a hand-built batch
+    # that carries one value of theta per point (and of a second, unused parameter written after it), evaluated as
+    # the user wrote it (eagerly, dictionary in the user's key order)
+    if case["seed"] % 4 == 3 and not spinn:
+        th, aux = rng.uniform(0.5, 1.5, (B, 1)), rng.uniform(3.0, 5.0, (B, 1))
+        p2 = Params(nn_params=net.nn_params(), eq_params={"theta": jnp.asarray(0.8), "aux": jnp.asarray(0.0)})
+        l2 = guard.call(Loss, u=u, dynamic_loss=dyn, loss_weights=LW(dyn_loss=wj), params=p2)
+        pbd = {"theta": jnp.asarray(th), "aux": jnp.asarray(aux)}
+        if kind == "ode":
+            b2 = jinns.data.ODEBatch(temporal_batch=jnp.asarray(pts[:, 0]), param_batch_dict=pbd)
+        elif kind == "statio":
+            b2 = jinns.data.PDEStatioBatch(inside_batch=jnp.asarray(pts), border_batch=None, param_batch_dict=pbd)
+        else:
+            b2 = jinns.data.PDENonStatioBatch(times_x_inside_batch=jnp.asarray(pts), times_x_border_batch=None,
+                                              param_batch_dict=pbd)
+        _t2, terms2 = guard.call(l2.evaluate, p2, b2)
+        rec.count("hand_built_parameter_batches")
+        e2 = float(np.mean([np.sum(np.asarray(wdyn) * spec.resid(net, z, {"theta": float(th[i, 0])}) ** 2)
+                            for i, z in enumerate(pts)]))
+        if not close(float(terms2["dyn_loss"]), e2, 1e-8, 1e-10):
+            rec.violation("dyn-term/%s/per-point-parameters" % sigk,
+                          "dynamic term %r on a batch giving theta per point (param_batch_dict keys theta, aux), expected "
+                          "mean_i sum_c w_c r_c(p_i; theta_i)^2 = %r" % (float(terms2["dyn_loss"]), e2))
     # ---------------------------------------------------------------- the documented default: every weight 1.0
     if case["seed"] % 4 == 1:
         ld = guard.call(Loss, u=u, dynamic_loss=dyn, params=params, **kw)
